@@ -367,6 +367,15 @@ def rule_pu_fresh(ctx):
             for k, v in zip(rt.value.keys, rt.value.values):
                 for x in ast.walk(v):
                     if isinstance(x, ast.Name) and x.id in fd.module.globals:
+                        par = getattr(x, "_parent", None)
+                        # reading a module-level table to *build* fresh items is fine: the table is only iterated / indexed /
+                        # unpacked into a constructor; it is shared when the object itself is put into the result
+                        if isinstance(par, ast.comprehension) and par.iter is x:
+                            continue
+                        if isinstance(par, ast.Starred) or isinstance(par, ast.Subscript) and par.value is x:
+                            continue
+                        if isinstance(par, ast.Call) and isinstance(par.func, ast.Name) and par.func.id in ("HeaderItem", "CurveItem", "len", "range", "enumerate", "zip"):
+                            continue
                         problems.append("item %s of the default sections is the module-level object `%s`" % (unparse(k), x.id))
         elif not shared:
             pass
